@@ -146,6 +146,16 @@ def DGrid.fromIspdCircuit (c : Circuit) (sfMant sfExp smMant smExp : Int) : DGri
   DGrid.ofRegions (floatMulTrunc sfMant sfExp (minCellHeight c))
     (ispdRegions c (floatMulTrunc smMant smExp (minCellHeight c)))
 
+/-- The rows part of the C01 domain (`C01.Dom`, conjuncts 1, 3 and the first half of 4, verbatim): a
+uniform positive row height, rows pairwise non-intersecting, every row with a non-empty x-range.  The domain
+of `C16.circuit_grid_capacity_is_free_area`; evaluated by the driver on every circuit case. -/
+def RowsDom (c : Circuit) : Prop :=
+  0 < (Circuit.rowHeight c).getD 0 ∧
+  c.rows.Pairwise (fun r s => r.rect.intersects s.rect = false) ∧
+  (∀ r ∈ c.rows, r.rect.minX < r.rect.maxX)
+
+instance (c : Circuit) : Decidable (RowsDom c) := inferInstanceAs (Decidable (_ ∧ _ ∧ _))
+
 /-- demands of `HierarchicalDensityPlacement::fromIspdCircuit` (`int` truncation of the `long long` area is
 outside the domain: areas < 2^31) -/
 def circuitDemands (c : Circuit) : List Int :=
